@@ -19,6 +19,9 @@
 #include <functional>
 #include <thread>
 #include <mutex>
+#include <unistd.h>
+#include <poll.h>
+#include <errno.h>
 
 #include "colvarmodule.h"
 #include "colvar.h"
@@ -37,6 +40,7 @@ struct vsim_engine {
   double L[3] = {0, 0, 0};
   double dt = 1.0, temperature = 0.0;
   bool provide_total_forces = true;
+  bool tf_only_on_request = false;             // `tfonrequest 1`: export total forces only while Colvars requests them (NAMD/LAMMPS-like)
   bool same_step = true;                       // total_forces_same_step()
   bool include_cv_forces = true;               // lagged mode: total force includes Colvars' own force
   std::string prefix = "";
@@ -47,6 +51,14 @@ struct vsim_engine {
   std::string smp = "serial";                  // serial | omp | perm
   std::vector<int> perm;                       // explicit permutation for "perm"
   int nthreads = 1;
+  // replicas (multiple walkers): this process is walker rep_index of rep_num; rep_fd[p] is a connected
+  // stream socket to walker p (-1 for itself).  Empty rep_fd = no replica support (the default).
+  int rep_index = 0, rep_num = 1;
+  std::vector<int> rep_fd;
+  int rep_timeout_ms = 30000;
+  long rep_msgs_sent = 0, rep_msgs_recv = 0, rep_barriers = 0, rep_errors = 0;
+  std::vector<int> assign;                     // (C12) explicit thread of the k-th executed item (default: k mod nthreads)
+  std::vector<std::pair<std::string, double> > script_forces;  // (C12) scripted-force task: force added to named scalar variables
   void resize(int n) {
     natoms = n;
     mass.assign(n, 1.0); charge.assign(n, 0.0);
@@ -68,6 +80,10 @@ public:
   std::string errtext;
   std::mutex smp_mutex;
   static thread_local int my_thread_id;
+  // (C12) the work items of the last SMP loops, as the module built them
+  std::vector<std::pair<std::string, int> > last_cvc_items;
+  std::vector<std::string> last_bias_items;
+  bool cvc_loop_ran = false, bias_loop_ran = false;
 
   vsim_proxy(vsim_engine *e, bool quiet_in = true) : eng(e), quiet(quiet_in)
   {
@@ -128,13 +144,16 @@ public:
     return COLVARS_OK;
   }
 
+  std::mutex log_mutex;   // (C12) items running on several threads may log at the same time
   void log(std::string const &message) override
   {
+    std::lock_guard<std::mutex> g(log_mutex);
     if (logos) (*logos) << message;
     if (!quiet) std::cerr << "colvars: " << message;
   }
   void error(std::string const &message) override
   {
+    std::lock_guard<std::mutex> g(log_mutex);
     add_error_msg(message);
     errtext += message;
     if (logos) (*logos) << message;
@@ -157,9 +176,14 @@ public:
 
   void add_energy(cvm::real e) override { bias_energy += e; energies_added.push_back(e); }
 
+  // scripted-forces callback (scriptedColvarForces on): unset => same answer as the base class
+  // (run_force_callback() below uses it when set, then the C12 `forcescript` list)
+  std::function<int()> force_callback;
+
   int check_atom_id(int atom_number) override
   {
-    int aid = atom_number - 1;
+    // (no arithmetic on an unchecked number: atom_number may be INT_MIN)
+    int aid = (atom_number >= 1) ? (atom_number - 1) : -1;
     if (aid < 0 || aid >= eng->natoms) {
       cvm::error("Error: invalid atom number specified, " + cvm::to_str(atom_number) + "\n",
                  COLVARS_INPUT_ERROR);
@@ -170,7 +194,7 @@ public:
 
   int init_atom(int atom_number) override
   {
-    int aid = atom_number - 1;
+    int aid = (atom_number >= 1) ? (atom_number - 1) : -1;
     for (size_t i = 0; i < atoms_ids.size(); i++) {
       if (atoms_ids[i] == aid) {
         atoms_refcount[i] += 1;
@@ -187,75 +211,194 @@ public:
     return index;
   }
 
+  // ---- replicas: colvarproxy_replicas over stream sockets between walker processes.
+  // Every message is framed (1 byte tag 'D' data / 'B' barrier, 4 bytes length); the barrier goes
+  // through walker 0 on the same sockets.  All reads and writes time out (rep_timeout_ms) so that a
+  // broken protocol shows up as a communication error, never as a hang.
+  bool rep_on() const { return eng->rep_fd.size() > 0 && eng->rep_num > 1; }
+  int check_replicas_enabled() override { return rep_on() ? COLVARS_OK : COLVARS_NOT_IMPLEMENTED; }
+  int replica_index() override { return rep_on() ? eng->rep_index : 0; }
+  int num_replicas() override { return rep_on() ? eng->rep_num : 1; }
+  bool rep_io(int fd, char *buf, size_t n, bool wr)
+  {
+    size_t done = 0;
+    while (done < n) {
+      struct pollfd pf; pf.fd = fd; pf.events = wr ? POLLOUT : POLLIN; pf.revents = 0;
+      int pr = poll(&pf, 1, eng->rep_timeout_ms);
+      if (pr == 0) return false;
+      if (pr < 0) { if (errno == EINTR) continue; return false; }
+      ssize_t k = wr ? ::write(fd, buf + done, n - done) : ::read(fd, buf + done, n - done);
+      if (k < 0) { if (errno == EINTR || errno == EAGAIN) continue; return false; }
+      if (k == 0) return false;
+      done += (size_t) k;
+    }
+    return true;
+  }
+  bool rep_send_frame(int dest, char tag, char *data, int len)
+  {
+    if (dest < 0 || dest >= (int) eng->rep_fd.size() || eng->rep_fd[dest] < 0) return false;
+    char hdr[5]; hdr[0] = tag; memcpy(hdr + 1, &len, 4);
+    if (!rep_io(eng->rep_fd[dest], hdr, 5, true)) return false;
+    if (len > 0 && !rep_io(eng->rep_fd[dest], data, (size_t) len, true)) return false;
+    return true;
+  }
+  int rep_recv_frame(int src, char tag, char *data, int buf_len)
+  {
+    if (src < 0 || src >= (int) eng->rep_fd.size() || eng->rep_fd[src] < 0) return -1;
+    char hdr[5]; int len = 0;
+    if (!rep_io(eng->rep_fd[src], hdr, 5, false)) return -1;
+    memcpy(&len, hdr + 1, 4);
+    if (len < 0) return -1;
+    int keep = std::min(len, buf_len);
+    if (keep > 0 && !rep_io(eng->rep_fd[src], data, (size_t) keep, false)) return -1;
+    for (int rest = len - keep; rest > 0; ) {       // message longer than the buffer: drop the tail
+      char junk[256]; int k = std::min(rest, 256);
+      if (!rep_io(eng->rep_fd[src], junk, (size_t) k, false)) return -1;
+      rest -= k;
+    }
+    if (hdr[0] != tag) return -1;
+    return keep;
+  }
+  int replica_comm_send(char *msg_data, int msg_len, int dest_rep) override
+  {
+    if (!rep_on()) return COLVARS_NOT_IMPLEMENTED;
+    if (!rep_send_frame(dest_rep, 'D', msg_data, msg_len)) { eng->rep_errors++; return 0; }
+    eng->rep_msgs_sent++;
+    return msg_len;
+  }
+  int replica_comm_recv(char *msg_data, int buf_len, int src_rep) override
+  {
+    if (!rep_on()) return COLVARS_NOT_IMPLEMENTED;
+    int r = rep_recv_frame(src_rep, 'D', msg_data, buf_len);
+    if (r < 0) { eng->rep_errors++; return 0; }
+    eng->rep_msgs_recv++;
+    return r;
+  }
+  void replica_comm_barrier() override
+  {
+    if (!rep_on()) return;
+    eng->rep_barriers++;
+    char c = 0;
+    if (eng->rep_index == 0) {
+      for (int p = 1; p < eng->rep_num; p++) if (rep_recv_frame(p, 'B', &c, 0) < 0) eng->rep_errors++;
+      for (int p = 1; p < eng->rep_num; p++) if (!rep_send_frame(p, 'B', &c, 0)) eng->rep_errors++;
+    } else {
+      if (!rep_send_frame(0, 'B', &c, 0)) eng->rep_errors++;
+      if (rep_recv_frame(0, 'B', &c, 0) < 0) eng->rep_errors++;
+    }
+  }
+
   // ---- SMP: explicit schedules through the virtual interface
   smp_mode_t get_smp_mode() const override
   {
     if (eng->smp == "serial") return smp_mode_t::none;
     return smp_mode;
   }
-  int smp_loop(int n_items, std::function<int(int)> const &worker) override
+  // (C12) run `order` (a list of item indices) on nthreads std::threads: the k-th entry goes to thread
+  // eng->assign[k] when given, otherwise k mod nthreads; each thread runs its entries in list order
+  void run_schedule(std::vector<int> const &order, std::function<void(int, int)> const &work, bool raise_depth = false)
   {
-    if (eng->smp == "omp") return colvarproxy_smp::smp_loop(n_items, worker);
-    // explicit permutation, items dealt round-robin to nthreads std::threads
-    std::vector<int> order;
-    for (int i = 0; i < n_items; i++) order.push_back(i);
-    if ((int) eng->perm.size() >= n_items) {
-      order.clear();
-      for (size_t i = 0; i < eng->perm.size(); i++)
-        if (eng->perm[i] < n_items) order.push_back(eng->perm[i]);
-    }
-    int error_code = COLVARS_OK;
-    cvm::increase_depth();
     int nt = std::max(1, eng->nthreads);
     if (nt == 1) {
-      for (int i : order) error_code |= worker(i);
-    } else {
-      std::vector<std::thread> ths;
-      std::vector<int> codes(nt, 0);
-      for (int t = 0; t < nt; t++) {
-        ths.emplace_back([&, t]() {
-          my_thread_id = t;
-          for (size_t k = t; k < order.size(); k += nt) codes[t] |= worker(order[k]);
-        });
-      }
-      for (auto &th : ths) th.join();
-      for (int t = 0; t < nt; t++) error_code |= codes[t];
+      if (raise_depth) cvm::increase_depth();
+      for (int i : order) work(i, 0);
+      if (raise_depth) cvm::decrease_depth();
+      return;
     }
-    cvm::decrease_depth();
+    std::vector<std::vector<int> > q(nt);
+    for (size_t k = 0; k < order.size(); k++) {
+      int t = (k < eng->assign.size()) ? eng->assign[k] : (int) (k % nt);
+      if (t < 0 || t >= nt) t = (int) (k % nt);
+      q[t].push_back(order[k]);
+    }
+    cvm::depth();    // allocate the per-thread depth counters before the threads start
+    std::vector<std::thread> ths;
+    for (int t = 0; t < nt; t++) {
+      ths.emplace_back([&, t]() {
+        my_thread_id = t;
+        // as colvarproxy_smp::smp_loop: every thread that runs items raises its own depth counter
+        if (raise_depth) cvm::increase_depth();
+        for (int i : q[t]) work(i, t);
+        if (raise_depth) cvm::decrease_depth();
+      });
+    }
+    for (auto &th : ths) th.join();
+  }
+  std::vector<int> schedule_order(int n)
+  {
+    std::vector<int> order;
+    if ((int) eng->perm.size() >= n && n > 0) {
+      for (size_t i = 0; i < eng->perm.size(); i++)
+        if (eng->perm[i] >= 0 && eng->perm[i] < n) order.push_back(eng->perm[i]);
+    } else {
+      for (int i = 0; i < n; i++) order.push_back(i);
+    }
+    return order;
+  }
+  int smp_loop(int n_items, std::function<int(int)> const &worker) override
+  {
+    {
+      colvarmodule *cv = cvm::main();
+      last_cvc_items.clear();
+      cvc_loop_ran = true;
+      if ((int) cv->variables_active_smp()->size() == n_items) {
+        for (int i = 0; i < n_items; i++)
+          last_cvc_items.push_back(std::make_pair((*(cv->variables_active_smp()))[i]->name,
+                                                  (*(cv->variables_active_smp_items()))[i]));
+      }
+    }
+    if (eng->smp == "omp") return colvarproxy_smp::smp_loop(n_items, worker);
+    // explicit permutation, items dealt to nthreads std::threads
+    std::vector<int> order = schedule_order(n_items);
+    int error_code = COLVARS_OK;
+    std::vector<int> codes(std::max(1, eng->nthreads), 0);
+    run_schedule(order, [&](int i, int t) { codes[t] |= worker(i); }, true);
+    for (size_t t = 0; t < codes.size(); t++) error_code |= codes[t];
     return error_code;
+  }
+  void record_bias_items(bool with_script)
+  {
+    colvarmodule *cv = cvm::main();
+    last_bias_items.clear();
+    bias_loop_ran = true;
+    for (size_t i = 0; i < cv->biases_active()->size(); i++) last_bias_items.push_back((*(cv->biases_active()))[i]->name);
+    if (with_script) last_bias_items.push_back("<script>");
+  }
+  // items 0..n-1 are the active biases; item n (only with_script) is the scripted-force task
+  int biases_schedule(bool with_script)
+  {
+    colvarmodule *cv = cvm::main();
+    int n = cv->biases_active()->size();
+    std::vector<int> order = schedule_order(n + (with_script ? 1 : 0));
+    run_schedule(order, [&](int i, int) {
+      if (i == n) cv->calc_scripted_forces();
+      else (*(cv->biases_active()))[i]->update();
+    });
+    return cvm::get_error();
   }
   int smp_biases_loop() override
   {
+    record_bias_items(false);
     if (eng->smp == "omp") return colvarproxy_smp::smp_biases_loop();
-    colvarmodule *cv = cvm::main();
-    int n = cv->biases_active()->size();
-    std::vector<int> order;
-    for (int i = 0; i < n; i++) order.push_back(i);
-    if ((int) eng->perm.size() >= n && n > 0) {
-      order.clear();
-      for (size_t i = 0; i < eng->perm.size(); i++)
-        if (eng->perm[i] < n) order.push_back(eng->perm[i]);
-    }
-    int nt = std::max(1, eng->nthreads);
-    if (nt == 1) {
-      for (int i : order) (*(cv->biases_active()))[i]->update();
-    } else {
-      std::vector<std::thread> ths;
-      for (int t = 0; t < nt; t++) {
-        ths.emplace_back([&, t]() {
-          my_thread_id = t;
-          for (size_t k = t; k < order.size(); k += nt) (*(cv->biases_active()))[order[k]]->update();
-        });
-      }
-      for (auto &th : ths) th.join();
-    }
-    return cvm::get_error();
+    return biases_schedule(false);
   }
   int smp_biases_script_loop() override
   {
+    record_bias_items(true);
     if (eng->smp == "omp") return colvarproxy_smp::smp_biases_script_loop();
-    cvm::main()->calc_scripted_forces();
-    return smp_biases_loop();
+    return biases_schedule(true);
+  }
+  // (C12) the scripted-force task: what a `calc_colvar_forces` Tcl procedure would do with `cv colvar <v> addforce <f>`
+  int run_force_callback() override
+  {
+    if (force_callback) return force_callback();
+    if (!eng->script_forces.size()) return COLVARS_NOT_IMPLEMENTED;
+    for (auto &p : eng->script_forces) {
+      colvar *c = cvm::colvar_by_name(p.first);
+      if (!c) return COLVARS_ERROR;
+      c->add_bias_force(colvarvalue(p.second));
+    }
+    return COLVARS_OK;
   }
   int smp_thread_id() override
   {
@@ -306,7 +449,7 @@ public:
     for (size_t i = 0; i < atoms_ids.size(); i++) {
       int aid = atoms_ids[i];
       atoms_positions[i] = eng->pos[aid];
-      if (eng->provide_total_forces) {
+      if (eng->provide_total_forces && (!eng->tf_only_on_request || total_force_requested)) {
         if (eng->same_step) {
           atoms_total_forces[i] = eng->eforce[aid];
         } else {
@@ -398,7 +541,7 @@ struct vsim_session {
   vsim_session(std::ostream *o) : out(o)
   {
     show["cv"] = true; show["energy"] = true; show["bias"] = true; show["atomf"] = true;
-    show["tf"] = false; show["af"] = false; show["err"] = true;
+    show["tf"] = false; show["af"] = false; show["err"] = true; show["items"] = false;
   }
   ~vsim_session() { if (proxy) { delete proxy; proxy = NULL; } }
 
@@ -419,6 +562,19 @@ struct vsim_session {
     if (show["err"]) o << " err=" << vs_errclass(err | cvm::get_error());
     o << "\n";
     if (show["energy"]) o << "ENERGY " << vs_hex(proxy->bias_energy) << "\n";
+    if (show["items"]) {
+      if (proxy->cvc_loop_ran) {
+        o << "ITEMS";
+        for (auto &p : proxy->last_cvc_items) o << " " << p.first << ":" << p.second;
+        o << "\n";
+      }
+      if (proxy->bias_loop_ran) {
+        o << "BITEMS";
+        for (auto &n : proxy->last_bias_items) o << " " << n;
+        o << "\n";
+      }
+      proxy->cvc_loop_ran = proxy->bias_loop_ran = false;
+    }
     if (show["cv"]) {
       for (colvar *c : *(cv->variables())) {
         o << "CV " << c->name << " " << vs_hex(c->value()) << "\n";
@@ -473,12 +629,40 @@ struct vsim_session {
     else if (cmd == "temperature") { eng.temperature = num(a[0]); if (proxy) { proxy->set_target_temperature(eng.temperature); proxy->colvars->update_engine_parameters(); } }
     else if (cmd == "samestep") { eng.same_step = atoi(a[0].c_str()) != 0; }
     else if (cmd == "totalforces") { eng.provide_total_forces = atoi(a[0].c_str()) != 0; }
+    else if (cmd == "tfonrequest") { eng.tf_only_on_request = atoi(a[0].c_str()) != 0; }
     else if (cmd == "includecv") { eng.include_cv_forces = atoi(a[0].c_str()) != 0; }
     else if (cmd == "prefix") { eng.prefix = a.size() ? a[0] : ""; }
+    else if (cmd == "outprefix") {
+      // change the engine's output prefix of the live module and let it (re)open its outputs, as
+      // engines do after reading the configuration and at the start of a run with a new output name
+      eng.prefix = a.size() ? a[0] : "";
+      cvm::clear_error();
+      proxy->set_output_prefix(eng.prefix);
+      int err = proxy->colvars->setup_output();
+      o << "OUTPREFIX err=" << vs_errclass(err | cvm::get_error()) << "\n";
+      cvm::clear_error();
+    }
     else if (cmd == "restartfreq") { eng.restart_freq = atoi(a[0].c_str()); }
     else if (cmd == "gauss") { eng.gauss.clear(); eng.gauss_pos = 0; for (auto &s : a) eng.gauss.push_back(num(s)); }
     else if (cmd == "smp") { eng.smp = a[0]; if (a.size() > 1) eng.nthreads = atoi(a[1].c_str()); }
+    else if (cmd == "replicas") {
+      // replicas <index> <num> <fd to walker 0> <fd to walker 1> ... (-1 for itself) | replicas off
+      eng.rep_fd.clear(); eng.rep_index = 0; eng.rep_num = 1;
+      if (a.size() >= 2 && a[0] != "off") {
+        eng.rep_index = atoi(a[0].c_str()); eng.rep_num = atoi(a[1].c_str());
+        for (size_t i = 2; i < a.size(); i++) eng.rep_fd.push_back(atoi(a[i].c_str()));
+        eng.rep_fd.resize(eng.rep_num, -1);
+      }
+    }
+    else if (cmd == "reptimeout") { eng.rep_timeout_ms = atoi(a[0].c_str()); }
+    else if (cmd == "repstat") {
+      o << "REPSTAT index=" << eng.rep_index << " num=" << eng.rep_num << " sent=" << eng.rep_msgs_sent
+        << " recv=" << eng.rep_msgs_recv << " barriers=" << eng.rep_barriers << " errors=" << eng.rep_errors << "\n";
+    }
+    else if (cmd == "sync") { o << "SYNC" << (a.size() ? " " + a[0] : std::string("")) << "\n"; o.flush(); }
     else if (cmd == "perm") { eng.perm.clear(); for (auto &s : a) eng.perm.push_back(atoi(s.c_str())); }
+    else if (cmd == "assign") { eng.assign.clear(); for (auto &s : a) eng.assign.push_back(atoi(s.c_str())); }
+    else if (cmd == "forcescript") { eng.script_forces.clear(); for (size_t i = 0; i + 1 < a.size(); i += 2) eng.script_forces.push_back(std::make_pair(a[i], num(a[i + 1]))); }
     else if (cmd == "quiet") { quiet = atoi(a[0].c_str()) != 0; if (proxy) proxy->quiet = quiet; }
     else if (cmd == "log") { if (logfile.is_open()) logfile.close(); logfile.open(a[0].c_str()); if (proxy) proxy->logos = &logfile; }
     else if (cmd == "show") { for (size_t i = 0; i + 1 < a.size(); i += 2) show[a[i]] = atoi(a[i + 1].c_str()) != 0; }
@@ -528,8 +712,20 @@ struct vsim_session {
       int err = proxy->post_run();
       o << "POSTRUN err=" << vs_errclass(err | cvm::get_error()) << "\n";
     }
-    else if (cmd == "script") {
+    else if (cmd == "script" || cmd == "scriptq") {
       std::vector<std::string> words(a);
+      if (cmd == "scriptq") {   // words may be double-quoted: scriptq cv colvar x cvcflags "0 1 1"
+        words.clear();
+        size_t p = line.find("scriptq") + 7;
+        while (p < line.size()) {
+          while (p < line.size() && isspace((unsigned char) line[p])) p++;
+          if (p >= line.size()) break;
+          std::string w;
+          if (line[p] == '"') { p++; while (p < line.size() && line[p] != '"') w += line[p++]; p++; }
+          else { while (p < line.size() && !isspace((unsigned char) line[p])) w += line[p++]; }
+          words.push_back(w);
+        }
+      }
       std::vector<unsigned char *> argv;
       for (auto &s : words) argv.push_back((unsigned char *) s.c_str());
       cvm::clear_error();
@@ -539,6 +735,7 @@ struct vsim_session {
       o << "SCRIPT err=" << (err == COLVARS_OK ? "ok" : "error") << " result=" << res << "\n";
       cvm::clear_error();
     }
+    else if (cmd == "unbuffered") { o << std::unitbuf; }   // every line reaches the pipe at once (C11: processes that get killed)
     else if (cmd == "echo") { o << line << "\n"; }
     else if (cmd == "quit") { return false; }
     else if (!exec_extra(cmd, a, is)) {
